@@ -448,7 +448,7 @@ class DeserializationMethodVisitor(
                 field_method: DeserializationMethod = field_factory.method
                 fall_back_on_default = (
                     field.fall_back_on_default or self.fall_back_on_default
-                )
+                ) and not field.required
                 if field.flattened:
                     flattened_aliases = get_deserialization_flattened_aliases(
                         cls, field, self.default_conversion
